@@ -74,7 +74,7 @@ def gen_slice_case(rng, k, p_strand=0.2, p_insert=0.75, p_diff=True, measures=("
 
 def replayable(case):
     return {k: case[k] for k in ("k", "response", "transforms", "strand", "kinds", "valid_counts",
-                                 "weighted", "dominant") if k in case}
+                                 "weighted", "dominant", "empty_wave") if k in case}
 
 
 def read(part, names):
@@ -168,3 +168,70 @@ def late_reads(case, names, fresh, limit_culprits=4, transforms=_CASE, k=0):
                     break
         out.append((n, a, b, culprits))
     return population, out
+
+
+def _dim_len(d):
+    t = d["type"]
+    return len(t["categories"]) if "categories" in t else len(t.get("elements", []))
+
+
+def empty_wave(case, rng):
+    """EMPTY WAVE: on a categorical-date dimension of the response one valid wave loses all its respondents
+    (every count of that category becomes 0, weighted and unweighted) and the analysis gets a
+    one-wave-minus-one-wave difference that involves it - the zero-base corner of the wave-difference rule.
+    Marks the case `empty_wave`; returns False when the response has no categorical-date dimension with two
+    valid waves."""
+    res = case["response"]["result"]
+    dims = res["dimensions"]
+    cand = []
+    for ax, d in enumerate(dims):
+        cats = d["type"].get("categories")
+        if not cats or not any(c.get("date") for c in cats):
+            continue
+        valid = [i for i, c in enumerate(cats) if not c.get("missing")]
+        if len(valid) >= 2:
+            cand.append((ax, valid))
+    if not cand:
+        return False
+    ax, valid = rng.choice(cand)
+    gone = rng.choice(valid)
+    other = rng.choice([i for i in valid if i != gone])
+    shape = [_dim_len(d) for d in dims]
+    stride = 1
+    for n in shape[ax + 1:]:
+        stride *= n
+    arrays = [res["counts"]] + [m["data"] for m in res.get("measures", {}).values()
+                                if isinstance(m, dict) and isinstance(m.get("data"), list)]
+    for arr in arrays:
+        if len(arr) != len(res["counts"]):
+            continue
+        for i in range(len(arr)):
+            if (i // stride) % shape[ax] == gone and isinstance(arr[i], (int, float)):
+                arr[i] = 0
+    cats = dims[ax]["type"]["categories"]
+    a, b = cats[gone]["id"], cats[other]["id"]
+    pos, neg = ([a], [b]) if rng.random() < 0.5 else ([b], [a])
+    # the LAST dimension of the response is the columns dimension of a slice (rows of a strand)
+    key = "rows_dimension" if (len(dims) == 1 or ax < len(dims) - 1 and not case.get("strand")) else "columns_dimension"
+    if case.get("strand"):
+        key = "rows_dimension"
+    tr = case.get("transforms") or {}
+    dd = dict(tr.get(key) or {})
+    ins = list(dd.get("insertions") or [])
+    ins.append({"function": "subtotal", "name": "empty_wave_diff", "anchor": "bottom", "args": pos,
+                "kwargs": {"positive": pos, "negative": neg}, "id": 97})
+    dd["insertions"] = ins
+    tr = dict(tr)
+    tr[key] = dd
+    case["transforms"] = tr
+    case["empty_wave"] = True
+    return True
+
+
+def empty_wave_some(cases, seed, p=0.5):
+    """apply [empty_wave] to about half of the cases that have a categorical-date dimension (own PRNG)"""
+    import random
+    erng = random.Random(seed * 104729 + 7)
+    for case in cases:
+        if "cat_date" in (case.get("kinds") or ()) and not case.get("dominant") and erng.random() < p:
+            empty_wave(case, erng)
